@@ -39,7 +39,9 @@ def run(ctx):
 def search(ctx, broken, corr_broken):
     args = [(c["stream"], c["seed"], None) for c in corr_broken if "seed" in c]
     args += [("main", engine.sub_seed(ctx["seed"] + 1, i, "C17"), None) for i in range(1000)]
-    results = engine.sweep("archsweep", "eval_replace_nomodel", args, chunksize=4)
+    # with the model available the needles are taken from the model's merged tree (see archsweep)
+    fn = "eval_replace" if ctx["model_ok"] else "eval_replace_nomodel"
+    results = engine.sweep("archsweep", fn, args, chunksize=4)
     return archsweep.summarise(ctx, results, RULE, "", lambda fs: True)["violations"]
 
 
@@ -48,7 +50,11 @@ def replay(ctx, path):
     if "seed" not in d:
         print("replay file names no input:", d.get("note"))
         return 1
-    r = archsweep.eval_replace({"model": None}, (d["stream"], d["seed"], d.get("arg")))
+    # the needles of a case are drawn from the model's merged tree when the model is available
+    # (as in the run that wrote the replay file), so the replay uses it too
+    import common
+    state = {"model": common.Model() if ctx.get("model_ok") else None}
+    r = archsweep.eval_replace(state, (d["stream"], d["seed"], d.get("arg")))
     if r["fails"]:
         print(f"VIOLATION property=C17 replay={path}")
         for f in r["fails"]:
